@@ -21,7 +21,12 @@ RULE = ('selection: datasets (normal/uniform/exponential/beta/lognormal/bimodal/
         'reference forms (class, FQN string, instance prototype) and harness stubs (raise in __init__/fit/cdf, NaN and '
         '+inf statistics, rigged cdfs incl. two classes with bit-identical statistics and an unbeatable one; several '
         'prototypes of ONE class with different hyper-parameters in both orders: GaussianKDE bandwidths, TruncatedGaussian '
-        'bounds, parametrised stub — the selected entry is identified by class AND the KS of the returned model), '
+        'bounds, parametrised stub — the selected entry is identified by class AND the KS of the returned model; instance '
+        'prototypes of parametrised families (TruncatedGaussian, GaussianKDE, stubs recorded by the real store_args) and of '
+        'the selecting wrapper (candidates / parametric / bounded) built by keyword, positionally and mixed, incl. falsy '
+        'but meaningful values (minimum=0, maximum=0.0, delta=0, fail=False) in the candidate-list, global and '
+        'per-column-dict positions; expectations come from the recipe the prototype was built with, never from '
+        'get_instance), '
         'lengths 1..10, duplicates allowed; each candidate\'s outcome is computed with the code\'s own calls '
         '(get_instance, fit, kstest(X, instance.cdf)) and sent as Option-KS list; distinct by (dataset, list), '
         'non-trivial when >= 2 candidates are fittable.  filters: generated table vs introspection, all 12 '
@@ -166,6 +171,39 @@ class StubParam(_Stub):
         return np.clip(self._base(X) + self.delta, 0.0, 1.0)
 
 
+def _store_args():
+    from copulas.utils import store_args
+    return store_args
+
+
+class StubParamArgs(_Stub):
+    """like StubParam but its constructor arguments are recorded by the library's own `store_args` decorator."""
+
+    def __init__(self, delta=0.0, fail=False):
+        _Stub.__init__(self)
+        self.delta, self.fail = delta, fail
+
+    def fit(self, X):
+        if self.fail:
+            raise ValueError('stub: configured to fail')
+        _Stub.fit(self, X)
+
+    def cdf(self, X):
+        return np.clip(self._base(X) + self.delta, 0.0, 1.0)
+
+
+class StubDefaultsArgs(StubParamArgs):
+    """defaults are NOT the falsy values (delta=0.25, fail=True): a prototype built with delta=0 / fail=False loses
+    its meaning if falsy constructor arguments are dropped when it is re-created."""
+
+    def __init__(self, delta=0.25, fail=True):
+        _Stub.__init__(self)
+        self.delta, self.fail = delta, fail
+
+
+StubParamArgs.__init__ = _store_args()(StubParamArgs.__init__)
+StubDefaultsArgs.__init__ = _store_args()(StubDefaultsArgs.__init__)
+
 SELECT_STUBS = [StubRaiseInit, StubRaiseFit, StubRaiseFitOther, StubRaiseCdf, StubNaN, StubInf, StubShiftA, StubShiftB,
                 StubTwinA, StubTwinB, StubEcdfMid]
 BAD_STUBS = {StubRaiseInit, StubRaiseFit, StubRaiseFitOther, StubRaiseCdf, StubNaN, StubInf}
@@ -175,12 +213,98 @@ BAD_STUBS = {StubRaiseInit, StubRaiseFit, StubRaiseFitOther, StubRaiseCdf, StubN
 class Entry:
     """one element of a `candidates` list (or one distribution reference): python object + stable key."""
 
-    def __init__(self, key, obj):
+    def __init__(self, key, obj, fresh=None, sel=None):
         self.key, self.obj = key, obj
         self.type = fqn(obj)
+        # the configuration the USER expressed, independent of get_instance / store_args:
+        self.fresh = fresh      # callable -> new unfitted instance configured as intended (built by keyword)
+        self.sel = sel          # selecting wrapper: (explicit candidate Entries or None, parametric, bounded)
 
     def __repr__(self):
         return self.key
+
+
+def intended_instance(entry):
+    """a new instance configured the way the reference says (prototypes: from the recipe they were built with)."""
+    from copulas.utils import get_instance
+    return entry.fresh() if entry.fresh is not None else get_instance(entry.obj)
+
+
+def filtered_families(p, b):
+    return [c for c in real_families() if (p is None or c.PARAMETRIC == p) and (b is None or c.BOUNDED == b)]
+
+
+def intended_candidates(entry):
+    """candidate Entries a selecting reference (class Univariate, its FQN, a Univariate prototype) stands for."""
+    cands, p, b = entry.sel if entry.sel is not None else (None, None, None)
+    if cands:
+        return cands
+    return [Entry('cls:' + c.__name__, c) for c in filtered_families(p, b)]
+
+
+STYLES = ('kw', 'pos', 'mixed')
+
+
+def proto(cls, params, style):
+    """instance prototype of a parametrised family built by keyword / positionally / first positional, rest keyword."""
+    vals = [v for _, v in params]
+    if style == 'kw':
+        obj = cls(**dict(params))
+    elif style == 'pos':
+        obj = cls(*vals)
+    else:
+        obj = cls(vals[0], **dict(params[1:]))
+    key = 'inst:%s[%s](%s)' % (cls.__name__, style, ','.join('%s=%r' % nv for nv in params))
+    return Entry(key, obj, fresh=lambda: cls(**dict(params)))
+
+
+def selector(style, cands=None, p=None, b=None):
+    """prototype of the selecting wrapper `Univariate(candidates, parametric, bounded)` in the given style."""
+    from copulas.univariate import Univariate
+    objs = [e.obj for e in cands] if cands else None
+    params = [('candidates', objs), ('parametric', p), ('bounded', b)]
+    given = {n: v for n, v in params if v is not None}
+    if style == 'kw':
+        obj = Univariate(**given)
+    elif style == 'pos':
+        last = max([i for i, (_, v) in enumerate(params) if v is not None], default=-1)
+        obj = Univariate(*[v for _, v in params[:last + 1]])
+    else:
+        obj = Univariate(objs, **{n: v for n, v in given.items() if n != 'candidates'})
+    key = 'inst:Univariate[%s](%s%s%s)' % (style, '[' + ','.join(e.key for e in cands) + ']' if cands else 'None',
+                                          ',p=' + p.name if p is not None else '', ',b=' + b.name if b is not None else '')
+
+    def fresh():
+        inner = [intended_instance(e) if e.fresh is not None else e.obj for e in cands] if cands else None
+        return Univariate(candidates=inner, parametric=p, bounded=b)
+    return Entry(key, obj, fresh=fresh, sel=(cands, p, b))
+
+
+def prototype_entries():
+    """parametrised families and the selecting wrapper, each built by keyword, positionally and mixed; incl. falsy but
+    meaningful values (minimum=0, maximum=0.0, delta=0, fail=False)."""
+    from copulas.univariate import GaussianKDE, GaussianUnivariate, TruncatedGaussian, UniformUnivariate
+    P, B = _enums()
+    out = {'family': [], 'selector': []}
+    for st in STYLES:
+        out['family'] += [proto(TruncatedGaussian, [('minimum', 0.0), ('maximum', 20.0)], st),
+                          proto(TruncatedGaussian, [('minimum', -200.0), ('maximum', 200.0)], st),
+                          proto(TruncatedGaussian, [('minimum', 0), ('maximum', 50.0)], st),
+                          proto(TruncatedGaussian, [('minimum', -50.0), ('maximum', 0.0)], st),
+                          proto(GaussianKDE, [('sample_size', None), ('random_state', None), ('bw_method', 0.3)], st),
+                          proto(GaussianKDE, [('sample_size', None), ('random_state', None), ('bw_method', 2.0)], st),
+                          proto(StubParamArgs, [('delta', 0.3), ('fail', False)], st),
+                          proto(StubParamArgs, [('delta', -0.12), ('fail', False)], st),
+                          proto(StubDefaultsArgs, [('delta', 0), ('fail', False)], st),
+                          proto(StubDefaultsArgs, [('delta', 0.0), ('fail', False)], st)]
+        U, G = Entry('cls:UniformUnivariate', UniformUnivariate), Entry('cls:GaussianUnivariate', GaussianUnivariate)
+        out['selector'] += [selector(st, [U, G]), selector(st, [Entry('inst:GaussianUnivariate', GaussianUnivariate()),
+                                                              Entry('fqn:UniformUnivariate', fqn(UniformUnivariate))]),
+                            selector(st, None, P.PARAMETRIC, B.BOUNDED), selector(st, None, P.PARAMETRIC, B.UNBOUNDED),
+                            selector(st, None, P.PARAMETRIC), selector(st, None, None, B.SEMI_BOUNDED),
+                            selector(st, [G, U], P.NON_PARAMETRIC, B.UNBOUNDED),
+                            selector(st, [proto(StubParamArgs, [('delta', 0.3), ('fail', False)], 'kw'), G])]
+    return out
 
 
 def descendants(c):
@@ -220,6 +344,8 @@ def all_entries():
     ents.append(Entry('fqn:missing-class', 'copulas.univariate.NoSuchFamily'))
     ents.append(Entry('fqn:no-dot', 'GaussianUnivariate'))
     ents.extend(e for fam in same_family_prototypes().values() for e in fam)
+    protos = prototype_entries()
+    ents.extend(protos['family'] + protos['selector'])
     return ents
 
 
@@ -255,9 +381,8 @@ class Outcomes:
 
     @staticmethod
     def compute(entry, X):
-        from copulas.utils import get_instance
         try:
-            instance = get_instance(entry.obj)
+            instance = intended_instance(entry)
             instance.fit(X)
             ks, _ = kstest(X, instance.cdf)
             return float(ks)
@@ -348,17 +473,37 @@ def large_cases(ctx, label, deep):
     return [(did, X, L) for did, X in sets for L in orders]
 
 
+def prototype_lists():
+    """fixed lists with prototypes in the candidate-list position: positional / mixed / keyword, parametrised families
+    and the selecting wrapper, falsy-but-meaningful values."""
+    from copulas.univariate import GaussianUnivariate
+    pe = prototype_entries()
+    fam = {e.key: e for e in pe['family']}
+    sel = pe['selector']
+    g = Entry('cls:GaussianUnivariate', GaussianUnivariate)
+    pick = lambda cls, st, frag: next(e for e in pe['family'] if e.key.startswith(f'inst:{cls}[{st}]') and frag in e.key)  # noqa
+    n = len(sel) // 3
+    return [('prototypes', L) for L in (
+        [pick('TruncatedGaussian', 'pos', '-200.0')], [g, pick('TruncatedGaussian', 'mixed', 'minimum=0.0,')],
+        [pick('TruncatedGaussian', 'kw', 'minimum=0,'), pick('TruncatedGaussian', 'pos', 'maximum=0.0')],
+        [pick('GaussianKDE', 'pos', '2.0'), pick('GaussianKDE', 'kw', '0.3')], [pick('GaussianKDE', 'mixed', '2.0'), g],
+        [pick('StubParamArgs', 'pos', '0.3'), pick('StubParamArgs', 'kw', '-0.12')],
+        [pick('StubParamArgs', 'mixed', '-0.12'), g, pick('StubParamArgs', 'pos', '-0.12')],
+        [pick('StubDefaultsArgs', 'kw', 'delta=0,'), g], [pick('StubDefaultsArgs', 'pos', 'delta=0.0')],
+        [sel[n + 0]], [sel[2 * n + 0], g], [sel[n + 2], pick('StubParamArgs', 'kw', '0.3')], [sel[2 * n + 3]], [sel[0], sel[n + 6]])]
+
+
 def candidate_lists(rng, entries, count):
     real = [e for e in entries if e.type.startswith('copulas.') and 'missing' not in e.key and 'no-dot' not in e.key]
     fast = [e for e in real if 'StudentT' not in e.key and 'Beta' not in e.key]
     stubs = [e for e in entries if e not in real]
     good_stubs = [e for e in stubs if e.type.split('.')[-1] not in {c.__name__ for c in BAD_STUBS}
-                  and 'fail' not in e.key and 'missing' not in e.key and 'no-dot' not in e.key]
+                  and '(fail' not in e.key and 'fail=True' not in e.key and 'missing' not in e.key and 'no-dot' not in e.key]
     bad_stubs = [e for e in stubs if e not in good_stubs]
     lists = []
     for k in range(count):
         mode = rng.choice(['real', 'real', 'mixed', 'mixed', 'mixed', 'stubs', 'bad-only', 'single', 'twins', 'dupes', 'same-family',
-                           'same-family'])
+                           'same-family', 'prototypes', 'prototypes'])
         if mode == 'real':
             L = rng.sample(real, rng.randint(2, 6))
         elif mode == 'mixed':
@@ -369,6 +514,9 @@ def candidate_lists(rng, entries, count):
             L = rng.sample(bad_stubs, rng.randint(1, 4))
         elif mode == 'single':
             L = [rng.choice(entries)]
+        elif mode == 'prototypes':
+            protos = [e for e in entries if e.fresh is not None]
+            L = rng.sample(protos, rng.randint(1, 3)) + rng.sample(fast + good_stubs, rng.randint(0, 2))
         elif mode == 'same-family':
             fam = rng.choice(sorted(same_family_prototypes()))
             protos = [e for e in entries if e.key.startswith('inst:' + fam + '(')]
@@ -406,8 +554,14 @@ def real_univariate_fit(objs, X, **kw):
 def selected_positions(L, outcomes, real):
     """list positions the real result can stand for: same class and (when identifiable) bit-identical KS."""
     idxs = [i for i, e in enumerate(L) if e.type == real[1]]
-    exact = [i for i in idxs if outcomes[i] is not None and real[2] is not None and outcomes[i] == real[2]]
-    return exact or idxs
+    exact = [i for i in idxs if outcomes[i] is not None and real[2] is not None and ks_close(outcomes[i], real[2])]
+    return exact
+
+
+def ks_close(a, b):
+    if a is None or b is None:
+        return False
+    return a == b or (a != a and b != b) or abs(a - b) <= 1e-12 * max(1.0, abs(a), abs(b))
 
 
 # =============================================================================== tie
@@ -574,6 +728,10 @@ def check_selection(lean, L, outcomes, real):
     fit = ask(lean, 'fit ' + toks)
     if real[0] == 'ok':
         idxs = selected_positions(L, outcomes, real)
+        if not idxs:
+            return {'why': 'the returned model is none of the configured candidates: no list entry of its class has its KS '
+                           'statistic (a prototype re-created with another configuration?)', 'model': sel,
+                    'ks of returned model': real[2]}
         accepted = any(ask(lean, f'acc {i} {toks}') == 'yes' for i in idxs)
         model_idx = int(sel.split()[1]) if sel.startswith('ok ') else None
         model_type = L[model_idx].type if model_idx is not None else None
@@ -582,7 +740,7 @@ def check_selection(lean, L, outcomes, real):
                     'real positions': idxs}
         if model_type != real[1] or not fit.startswith('ok '):
             return {'why': 'selected class differs from the model fold', 'model': sel, 'model_type': model_type}
-        if model_idx not in idxs and not same(outcomes[model_idx], real[2]):
+        if model_idx not in idxs and not ks_close(outcomes[model_idx], real[2]):
             return {'why': 'selected candidate (same class, other hyper-parameters) differs from the model fold',
                     'model': sel, 'real positions': idxs}
         return None
@@ -602,7 +760,7 @@ def tie_select(ctx, lean, outs):
     nondet = 0
     for dk, (did, kind, X) in enumerate(datasets(ctx, 'S', 10 + 4 * (ctx.scale - 1))):
         for mode, L in candidate_lists(rng, entries, 8 if ctx.scale == 1 else 10) + \
-                (same_family_lists() if dk < 3 * ctx.scale else []):
+                (same_family_lists() if dk < 3 * ctx.scale else []) + (prototype_lists() if dk < 2 * ctx.scale else []):
             outcomes = [outs.get(did, e, X) for e in L]
             real = real_univariate_fit([e.obj for e in L], X)
             d = check_selection(lean, L, outcomes, real)
@@ -675,6 +833,12 @@ class Refs:
         self.objs[t] = entry
         return t
 
+    def entry_of(self, obj):
+        for e in self.objs.values():
+            if e.obj is obj:
+                return e
+        return Entry('configured', obj)
+
     def resolve(self, t):
         from copulas.univariate import Univariate
         if t in self.objs:
@@ -694,22 +858,23 @@ def gm_refs():
     for c in (GaussianUnivariate, UniformUnivariate, GammaUnivariate, GaussianKDE, TruncatedGaussian, BetaUnivariate,
               StubRaiseFit, StubRaiseFitOther, StubShiftA, StubEcdfMid):
         refs.extend(entry_forms(c))
+    E = lambda c: Entry('cls:' + c.__name__, c)  # noqa: E731
+    kde = lambda bw: Entry('inst:GaussianKDE(bw=%s)' % bw, GaussianKDE(bw_method=bw))  # noqa: E731
+    sp = lambda d: Entry('inst:StubParam(%s)' % d, StubParam(delta=d))  # noqa: E731
     refs += [Entry('cls:Univariate', Univariate), Entry('fqn:Univariate', 'copulas.univariate.Univariate'),
              Entry('fqn:base.Univariate', 'copulas.univariate.base.Univariate'),
-             Entry('inst:Univariate()', Univariate()),
-             Entry('inst:Univariate(parametric)', Univariate(parametric=P.PARAMETRIC)),
-             Entry('inst:Univariate(bounded)', Univariate(bounded=B.BOUNDED)),
-             Entry('inst:Univariate(nonparam,semi)', Univariate(parametric=P.NON_PARAMETRIC, bounded=B.SEMI_BOUNDED)),
-             Entry('inst:Univariate([Uniform,Gaussian])', Univariate(candidates=[UniformUnivariate, GaussianUnivariate])),
-             Entry('inst:Univariate([KDE(3.0),KDE(0.05)])',
-                   Univariate(candidates=[GaussianKDE(bw_method=3.0), GaussianKDE(bw_method=0.05)])),
-             Entry('inst:Univariate([StubParam(0.3),Gaussian,StubParam(0.0)])',
-                   Univariate(candidates=[StubParam(delta=0.3), GaussianUnivariate, StubParam(delta=0.0)])),
-             Entry('inst:Univariate([raising])', Univariate(candidates=[StubRaiseFit, StubNaN, StubRaiseCdf])),
-             Entry('inst:Univariate([Twin,Twin,raise])', Univariate(candidates=[StubTwinB, StubTwinA, StubRaiseFit])),
+             selector('kw'), selector('kw', None, P.PARAMETRIC), selector('kw', None, None, B.BOUNDED),
+             selector('kw', None, P.NON_PARAMETRIC, B.SEMI_BOUNDED),
+             selector('kw', [E(UniformUnivariate), E(GaussianUnivariate)]),
+             selector('kw', [kde(3.0), kde(0.05)]),
+             selector('kw', [sp(0.3), E(GaussianUnivariate), sp(0.0)]),
+             selector('kw', [E(StubRaiseFit), E(StubNaN), E(StubRaiseCdf)]),
+             selector('kw', [E(StubTwinB), E(StubTwinA), E(StubRaiseFit)]),
              Entry('inst:StubParam(fail)', StubParam(fail=True)), Entry('inst:StubParam(0.04)', StubParam(delta=0.04)),
              Entry('inst:GaussianKDE(bw=0.5)', GaussianKDE(bw_method=0.5)),
              Entry('cls:StubRaiseInit', StubRaiseInit), Entry('fqn:missing-class', 'copulas.univariate.NoSuchFamily')]
+    protos = prototype_entries()
+    refs += protos['family'] + protos['selector']
     return refs
 
 
@@ -721,26 +886,38 @@ def is_selector(entry):
     return o is Univariate or type(o) is Univariate
 
 
+def kstok(ks):
+    return 'x' if ks is None else 'nan' if ks != ks else vc.f2h(ks)
+
+
+def model_ks(u, series):
+    """KS statistic of a fitted column model on its column (same call as the code: kstest(X, model.cdf))."""
+    try:
+        return float(kstest(series, u.cdf)[0])
+    except Exception:
+        return None
+
+
 def column_outcome(lean, outs, did, col, entry, series):
-    """the real outcome of reference `entry` on this column, as wire tokens (inst, fit) + selector info."""
+    """the outcome of reference `entry` — as the user configured it — on this column, as wire tokens (inst, fit)
+    + selector info.  A fitted model is reported as `<type>@<KS on the column>`."""
     from copulas.utils import get_instance
     try:
-        inst = get_instance(entry.obj)
+        get_instance(entry.obj)                 # can the reference be instantiated at all (the error branch)
+        inst = intended_instance(entry)
     except Exception as e:  # noqa
         return 'err:' + vc.exc_kind(e), 'err', None
     if is_selector(entry):
-        cands = [Entry('cand%d:%s' % (i, fqn(c)), c) for i, c in enumerate(inst.candidates or [])]
-        # key by the candidate's identity so that the cache is shared between references
-        for c in cands:
-            c.key = ('cls:' if isinstance(c.obj, type) else 'fqn:' if isinstance(c.obj, str) else 'inst:%d:' % id(c.obj)) + c.type
+        cands = intended_candidates(entry)
         outcomes = [outs.get((did, col), c, series) for c in cands]
         r = ask(lean, 'fit ' + ' '.join(tok(o) for o in outcomes))
         if r.startswith('ok '):
-            return 'ok', 'ok:' + cands[int(r.split()[1])].type, (cands, outcomes)
+            i = int(r.split()[1])
+            return 'ok', 'ok:' + cands[i].type + '@' + kstok(outcomes[i]), (cands, outcomes)
         return 'ok', 'err', (cands, outcomes)
     try:
         inst.fit(series)
-        return 'ok', 'ok:' + fqn(inst), None
+        return 'ok', 'ok:' + fqn(inst) + '@' + kstok(model_ks(inst, series)), None
     except Exception:
         return 'ok', 'err', None
 
@@ -778,7 +955,8 @@ def make_config(rng, refs, columns):
 def real_gm_fit(gm, df):
     try:
         gm.fit(df)
-        return 'ok ' + ' '.join(f'{col_tok(c)}={u.to_dict()["type"]}' for c, u in zip(gm.columns, gm.univariates))
+        return 'ok ' + ' '.join(f'{col_tok(c)}={u.to_dict()["type"]}@{kstok(model_ks(u, df[c]))}'
+                                for c, u in zip(gm.columns, gm.univariates))
     except Exception as e:  # noqa
         return 'err ' + vc.exc_kind(e)
 
@@ -800,7 +978,7 @@ def frame_oracles(lean, outs, toks, R, did, df):
         try:
             g = GaussianUnivariate()
             g.fit(series)
-            gauss = 'ok:' + fqn(g)
+            gauss = 'ok:' + fqn(g) + '@' + kstok(model_ks(g, series))
         except Exception as e:  # noqa
             gauss = 'err:' + vc.exc_kind(e)
         req += [col_tok(c), ref_tok, inst, fit, gauss]
@@ -810,8 +988,16 @@ def frame_oracles(lean, outs, toks, R, did, df):
     return [f'cols {len(columns)}'] + req, selectors, branch
 
 
+def split_fit(x):
+    """`col=type@ks` -> (col, type, ks float or None)"""
+    col, rest = x.split('=', 1)
+    t, _, k = rest.partition('@')
+    return col, t, (None if k in ('', 'x') else float('nan') if k == 'nan' else vc.h2f(k))
+
+
 def same_fit(lean, real, model, selectors):
-    """real and model fit results agree (a different minimiser in a selector column is not a disagreement)."""
+    """real and model fit results agree: per column the same class and the same KS of the fitted model (a different
+    minimiser in a selector column is not a disagreement)."""
     if real == model:
         return True
     if not (real.startswith('ok ') and model.startswith('ok ')):
@@ -822,12 +1008,18 @@ def same_fit(lean, real, model, selectors):
     for a, b in zip(rl, ml):
         if a == b:
             continue
-        ca, ta = a.split('=')
+        ca, ta, ka = split_fit(a)
+        cb, tb, kb = split_fit(b)
+        if ca != cb:
+            return False
+        if ta == tb and ks_close(ka, kb):
+            continue
         cands, outcomes = selectors.get(ca, (None, None))
-        if cands is None or b.split('=')[0] != ca:
+        if cands is None:
             return False
         t = ' '.join(tok(o) for o in outcomes)
-        if not any(ask(lean, f'acc {i} {t}') == 'yes' for i, e in enumerate(cands) if e.type == ta):
+        pos = [i for i, e in enumerate(cands) if e.type == ta and ks_close(outcomes[i], ka)]
+        if not any(ask(lean, f'acc {i} {t}') == 'yes' for i in pos):
             return False
     return True
 
@@ -847,11 +1039,37 @@ def config_tokens(dist, R):
     return ['single', ref(dist)]
 
 
-def gm_case(ctx, lean, outs, rng, refs, did, df):
+def prototype_configs(columns, which):
+    """fixed configurations with prototypes (positional / mixed / keyword; wrapper and parametrised families) in the
+    global and in the per-column-dict position -> [(kind, cfg, toks, R)]"""
+    pe = prototype_entries()
+    n = len(pe['selector']) // 3
+    nf = len(pe['family']) // 3
+    sel = {st: pe['selector'][i * n:(i + 1) * n] for i, st in enumerate(STYLES)}
+    fam = {st: pe['family'][i * nf:(i + 1) * nf] for i, st in enumerate(STYLES)}
+    singles = [sel['pos'][0], sel['pos'][2], sel['mixed'][3], fam['pos'][1], fam['pos'][6], fam['kw'][8], sel['mixed'][0],
+               fam['mixed'][5], sel['pos'][7], fam['pos'][9], sel['kw'][2], fam['mixed'][0]]
+    out = []
+    for e in singles[which::2]:
+        R = Refs()
+        out.append(('proto-global', e.obj, ['single', R.tok(e)], R))
+    pairs = [(sel['pos'][0], fam['pos'][1]), (fam['mixed'][6], sel['mixed'][2]), (sel['pos'][3], fam['kw'][8]),
+             (fam['pos'][5], sel['pos'][6])]
+    for a, b in pairs[which::2]:
+        R = Refs()
+        items = [(columns[0], a), (columns[-1], b)]
+        toks = ['dict', '2']
+        for k, e in items:
+            toks += [col_tok(k), R.tok(e)]
+        out.append(('proto-dict', {k: e.obj for k, e in items}, toks, R))
+    return out
+
+
+def gm_case(ctx, lean, outs, rng, refs, did, df, preset=None):
     """-> (key, real, model, detail-or-None)"""
     from copulas.multivariate import GaussianMultivariate
     columns = list(df.columns)
-    kind, cfg, toks, R = make_config(rng, refs, columns)
+    kind, cfg, toks, R = preset if preset is not None else make_config(rng, refs, columns)
     default = toks is None
     if default:       # GaussianMultivariate() — the constructor default must be the generated default too
         toks = ['single', 'Univariate']
@@ -896,8 +1114,10 @@ def history_refs():
               GaussianKDE, StubRaiseFit, StubShiftA):
         refs.extend(entry_forms(c))
     refs += [Entry('cls:Univariate', Univariate),
-             Entry('inst:Univariate([Positive,Uniform])', Univariate(candidates=[StubPositive, UniformUnivariate])),
-             Entry('inst:Univariate([SmallOnly])', Univariate(candidates=[StubSmallOnly]))]
+             selector('kw', [Entry('cls:StubPositive', StubPositive), Entry('cls:UniformUnivariate', UniformUnivariate)]),
+             selector('pos', [Entry('cls:StubSmallOnly', StubSmallOnly)]),
+             selector('mixed', None, _P.PARAMETRIC, _B.UNBOUNDED)]
+    refs += [e for e in prototype_entries()['family'] if 'Stub' in e.key][:6]
     return refs
 
 
@@ -1006,8 +1226,9 @@ def tie_gm(ctx, lean, outs):
     bad = None
     for k in range(6 + 3 * (ctx.scale - 1)):
         did, df = make_frame(ctx, 'G', k)
-        for _ in range(6 if ctx.scale == 1 else 8):
-            key, kind, branch, real, model, detail = gm_case(ctx, lean, outs, rng, refs, did, df)
+        presets = prototype_configs(list(df.columns), k % 2) if k < 2 * ctx.scale else []
+        for preset in [None] * (6 if ctx.scale == 1 else 8) + presets:
+            key, kind, branch, real, model, detail = gm_case(ctx, lean, outs, rng, refs, did, df, preset)
             ctx.case(key, nontrivial=True)
             ctx.count('gm:config=' + kind)
             for b in set(branch):
@@ -1024,9 +1245,17 @@ def lt(a, b):
     return a is not None and b is not None and a < b      # IEEE: false on NaN
 
 
-def optimality_violation(L, X, outcomes):
+def optimality_violation(L, X, outcomes, retry=True):
     """the property's optimality clause on the real `Univariate(candidates=L).fit(X)`:
     -> None | (observed, required, class key)"""
+    v = _optimality_violation(L, X, outcomes)
+    if v is not None and retry and v[2].endswith('not-a-configured-candidate'):
+        # KS equality presumes reproducible fits: confirm with freshly computed outcomes before reporting
+        v = _optimality_violation(L, X, [Outcomes.compute(e, X) for e in L])
+    return v
+
+
+def _optimality_violation(L, X, outcomes):
     real = real_univariate_fit([e.obj for e in L], X)
     ks = ['raised' if o is None else o for o in outcomes]
     finite = [o for o in outcomes if o is not None and o < math.inf]
@@ -1035,9 +1264,14 @@ def optimality_violation(L, X, outcomes):
         if not mine:
             return ({'selected': real[1], 'ks': ks}, 'the selected family is one that could be fitted to the data',
                     'Univariate.fit:selected-unfittable')
-        # the entry actually selected: identified by the KS of the returned model when it is one of this class's
-        # entries (two prototypes of one class differ only there); otherwise, leniently, the class's best entry
-        best = real[2] if real[2] in mine else min(mine)
+        # the entry actually selected is identified by the KS of the returned model (two prototypes of one class
+        # differ only there); a returned model that is NONE of the configured entries lost its configuration
+        if real[2] is not None and not any(ks_close(o, real[2]) for o in mine):
+            return ({'selected': real[1], 'ks of returned model': real[2], 'ks of the configured candidates': ks,
+                     'candidates': [e.key for e in L]},
+                    'the model returned is one of the configured candidates (same class AND same configuration: its KS '
+                    'statistic on the data equals that candidate\'s)', 'Univariate.fit:selected-model-not-a-configured-candidate')
+        best = real[2] if real[2] is not None else min(mine)
         smaller = [(e.key, o) for e, o in zip(L, outcomes) if lt(o, best)]
         if smaller:
             return ({'selected': real[1], 'selected_ks': best, 'smaller': smaller, 'ks': ks},
@@ -1068,7 +1302,7 @@ def search(ctx, deep):
         # ---- 1. optimality of Univariate.fit
         entries = all_entries()
         for dk, (did, kind, X) in enumerate(datasets(ctx, 'Q', 30 if deep else 5)):
-            for mode, L in candidate_lists(rng, entries, 12 if deep else 5) + (same_family_lists() if deep or dk < 3 else []) + \
+            for mode, L in candidate_lists(rng, entries, 12 if deep else 5) + (same_family_lists() if deep or dk < 3 else []) + (prototype_lists() if deep or dk < 2 else []) + \
                     [('all-real', [Entry('cls:' + c.__name__, c) for c in real_families()])]:
                 outcomes = [outs.get(did, e, X) for e in L]
                 checked += 1
@@ -1116,8 +1350,9 @@ def search(ctx, deep):
         for k in range(12 if deep else 3):
             did, df = make_frame(ctx, 'H', k)
             columns = list(df.columns)
-            for _ in range(8 if deep else 4):
-                kind, cfg, toks, R = make_config(rng, refs, columns)
+            presets = prototype_configs(columns, k % 2) if (deep or k < 2) else []
+            for preset in [None] * (8 if deep else 4) + presets:
+                kind, cfg, toks, R = preset if preset is not None else make_config(rng, refs, columns)
                 gm = GaussianMultivariate() if kind == 'default' else GaussianMultivariate(distribution=cfg)
                 inp = {'dataset': did, 'config': kind, 'distribution': repr(cfg)[:300], 'columns': [str(c) for c in columns],
                        'data': df.to_numpy().tolist()}
@@ -1130,8 +1365,7 @@ def search(ctx, deep):
                         'GaussianMultivariate.fit:raises')
                     continue
                 for c, u in zip(gm.columns, gm.univariates):
-                    v = column_violation(outs, did, c, cfg if kind != 'default' else None, kind == 'default', df[c],
-                                         u.to_dict()['type'], wrapper_ks(u, df[c]))
+                    v = column_violation(outs, did, c, R, cfg if kind != 'default' else None, kind == 'default', df[c], u)
                     if v is not None:
                         bad('GaussianMultivariate.fit', dict(inp, column=str(c), configured=v[0]), *v[1:])
 
@@ -1164,7 +1398,7 @@ def search(ctx, deep):
                 changed = (list(now.items()) != list(reference.items()) or any(now[kk] is not reference[kk] for kk in reference)) \
                     if isinstance(reference, dict) and isinstance(now, dict) else now is not reference
                 for c, u in zip(objs[m].columns, objs[m].univariates):
-                    v = column_violation(outs, did, c, reference, False, df[c], u.to_dict()['type'], wrapper_ks(u, df[c]))
+                    v = column_violation(outs, did, c, R, reference, False, df[c], u)
                     if v is not None:
                         obs, req, cls = v[1:]
                         if changed:
@@ -1181,65 +1415,64 @@ def search(ctx, deep):
     ctx.support = {'oracle_checks': checked, 'failures': found, 'deep': deep}
 
 
-def column_violation(outs, did, c, cfg, ctor_default, series, got, got_ks=None):
-    """the per-column clause of the property on one fitted column of the real model:
+def column_violation(outs, did, c, R, cfg, ctor_default, series, u):
+    """the per-column clause of the property on one fitted column `u` of the real model:
     -> None | (configured, observed, required, class key)"""
     from copulas.univariate import GaussianUnivariate, Univariate
+    got, got_ks = u.to_dict()['type'], model_ks(u, series)
     is_default = ctor_default or (isinstance(cfg, dict) and c not in cfg)
-    if is_default:
-        entry = Entry('cls:Univariate', Univariate)
-    else:
-        entry = Entry('configured', cfg[c] if isinstance(cfg, dict) else cfg)
+    entry = Entry('cls:Univariate', Univariate) if is_default else R.entry_of(cfg[c] if isinstance(cfg, dict) else cfg)
     configured = entry.key if entry.key != 'configured' else (entry.obj if isinstance(entry.obj, str) else repr(entry.obj)[:80])
-    inst, fit, selinfo = real_column_expectation(outs, did, col_tok(c), entry, series)
+    prototype = not is_default and not isinstance(entry.obj, (type, str))
     cls_key = 'GaussianMultivariate.fit:default-distribution' if is_default else 'GaussianMultivariate.fit:column-type'
+    lost = 'GaussianMultivariate.fit:prototype-configuration-lost' if prototype else cls_key
+    fit, fit_ks, selinfo = real_column_expectation(outs, did, col_tok(c), entry, series)
     if fit is None:            # the configured distribution cannot be fitted => Gaussian
         if got != fqn(GaussianUnivariate):
             return configured, got, 'column modelled by GaussianUnivariate (fallback)', 'GaussianMultivariate.fit:fallback-not-gaussian'
     elif selinfo is None:
         if got != fit:
-            return configured, got, f'column modelled by the configured distribution {fit}', cls_key
+            return configured, got, f'column modelled by the configured distribution {fit}', lost
+        if fit_ks is not None and got_ks is not None and not ks_close(fit_ks, got_ks):
+            return (configured, {'type': got, 'ks of fitted column model': got_ks, 'params': _params(u)},
+                    f'column modelled by the distribution AS CONFIGURED (hyper-parameters of the reference): fitted that way '
+                    f'its KS statistic on the column is {fit_ks!r}', lost)
     else:
         cands, outcomes = selinfo
+        obs = {'type': got, 'ks of fitted column model': got_ks, 'configured candidates': [(e.key, o) for e, o in zip(cands, outcomes)]}
         mine = [o for e, o in zip(cands, outcomes) if e.type == got and o is not None and o == o]
-        # prototypes of one class are told apart by the KS of the fitted column model (see optimality_violation)
-        if not mine or any(lt(o, got_ks if got_ks in mine else min(mine)) for o in outcomes):
-            return (configured, {'type': got, 'ks of fitted model': got_ks, 'ks': [(e.type, o) for e, o in zip(cands, outcomes)]},
-                    'column modelled by a KS-minimiser among the candidates of the '
+        if not mine or (got_ks is not None and not any(ks_close(o, got_ks) for o in mine)):
+            return (configured, obs, 'column modelled by one of the candidates of the '
+                    + ('default distribution Univariate' if is_default else 'configured Univariate (its candidate list / filters)'),
+                    lost)
+        if any(lt(o, got_ks if got_ks is not None else min(mine)) for o in outcomes):
+            return (configured, obs, 'column modelled by a KS-minimiser among the candidates of the '
                     + ('default distribution Univariate' if is_default else 'configured Univariate'), cls_key)
     return None
 
 
-def wrapper_ks(u, series):
-    """KS of a fitted column model that is a `Univariate` selector (None otherwise / on failure)."""
-    from copulas.univariate import Univariate
-    if type(u) is not Univariate:
-        return None
+def _params(u):
     try:
-        return float(kstest(series, u.cdf)[0])
+        return {k: (v if not isinstance(v, (list, np.ndarray)) else '…') for k, v in u.to_dict().items()}
     except Exception:
         return None
 
 
 def real_column_expectation(outs, did, col, entry, series):
-    """(inst_ok, expected type or None if the configured fit raises, selector info)"""
-    from copulas.utils import get_instance
-    inst = get_instance(entry.obj)
+    """what the configured reference gives on this column when built AS CONFIGURED:
+    (expected type | 'selector' | None if its fit raises, its KS, selector info)"""
     if is_selector(entry):
-        cands = []
-        for i, c in enumerate(inst.candidates or []):
-            e = Entry('x', c)
-            e.key = ('cls:' if isinstance(c, type) else 'fqn:' if isinstance(c, str) else 'inst:%d:' % id(c)) + e.type
-            cands.append(e)
+        cands = intended_candidates(entry)
         outcomes = [outs.get((did, col), c, series) for c in cands]
         if any(o is not None and o < math.inf for o in outcomes):
-            return True, 'selector', (cands, outcomes)
-        return True, None, None
+            return 'selector', None, (cands, outcomes)
+        return None, None, None
     try:
+        inst = intended_instance(entry)
         inst.fit(series)
-        return True, fqn(inst), None
+        return fqn(inst), model_ks(inst, series), None
     except Exception:
-        return True, None, None
+        return None, None, None
 
 
 def replay(ctx, payload):
